@@ -175,6 +175,33 @@ def check_decoder(res, ctx, rng, name):
 
 STREAM_CASES = []
 
+# window sizes for the scale ladder: a call that blocks for a long time returns after thousands of records of its thread
+SCALE_QUICK = (4094, 4095, 4096, 5000, 9000)
+SCALE_THOROUGH = (4095, 4096, 16384, 20000, 65535, 65536, 70000, 140000)
+
+
+def scale_windows(res, ctx, rng, names):
+    """The result part comes from the END record however many records of the same thread lie between START and END."""
+    base = H.unrelated(rng, 97)
+    for n in ctx.pick(SCALE_QUICK, SCALE_THOROUGH):
+        name = rng.choice(names)
+        start = domain.gen_words(rng, name, 'S')
+        ret = domain.gen_words(rng, name, 'E')[1:]
+        junk = (base * (n // len(base) + 1))[:n]
+        case = {'name': name, 'start': start, 'nested_records': n}
+        for end in ([0] + ret, [rng.randrange(1, 107)] + ret):
+            try:
+                small, big = render_outer(name, start, end), render_outer(name, start, end, junk)
+            except Exception as x:
+                res.violation(f'c10-raises-{core.exc_name(x)}', f'{name} with {n} nested records: {x!r}', case)
+                return
+            res.case((name, 'scale', n, end[0]))
+            res.count('scale_windows')
+            if small != big:
+                res.violation('c10-result-depends-on-start-or-nesting', f'{name}: with {n} unrelated same-thread records '
+                              f'between START and END the text is {big!r}, without them {small!r}', dict(case, end=end))
+                return
+
 
 def run(ctx):
     res = core.Result()
@@ -184,7 +211,11 @@ def run(ctx):
         if ctx.mine(i):
             for rep in range(ctx.pick(1, 40)):
                 check_decoder(res, ctx, rng, name)
+    mine = [n for i, n in enumerate(inv['bsd']) if ctx.mine(i) and n not in DECLARED_EXCLUSIONS]
+    if mine and (ctx.thorough or ctx.shard < 3):
+        scale_windows(res, ctx, rng, mine)
     stream.run_stream(res, 'c10', STREAM_CASES, rng, 'result renderings')
+    stream.run_files(res, 'c10', STREAM_CASES, rng, 'result renderings')
     if ctx.shard == 0:
         res.sample({'decoder': 'BSC_read', 'success': render_outer('BSC_read', (3, 0x1000, 64, 0), (0, 64, 0, 0)),
                     'error': render_outer('BSC_read', (3, 0x1000, 64, 0), (35, 64, 0, 0)),
@@ -198,7 +229,9 @@ def run(ctx):
     res.require('success_results_checked', 50)
     res.require('decoders_checked', 50)
     res.require('long_windows', 20)
+    res.require('scale_windows', 10)
     res.require('stream_windows_one_thread', 20)
+    res.require('file_windows_v3', 20)
     return res
 
 
